@@ -882,3 +882,50 @@ Lemma guards_not_closed_under_argparse :
   | Err _ => false
   end = true.
 Proof. vm_compute. reflexivity. Qed.
+
+(* why the guards of the per-kind theorems are conjuncts of closed_dom and chain_safe alone is not enough:
+   inside chain_safe closed_kinds (class None for the one-hop chain) the conversion of the faithful model does NOT
+   preserve the interface -- both confirmed on the real code *)
+Definition w1p (s : str) (g : gparam) : ir := mkIR FNone (Has (L "static")) (Has s) [(L "x", g)] FNone None.
+
+(* float default -0.0 through emit.class_ / parse.class_ comes back as 0.0 *)
+Definition w_negzero : ir := w1p (L "Sum.") (cg (L "first.") (L "float") (VFloat (L "-0.0"))).
+
+Lemma region_hole_negzero :
+  chain_safe closed_kinds w_negzero = true /\ complete w_negzero = true
+  /\ c05_class_of [KClass] w_negzero = None
+  /\ guard_C02_ast w_negzero = false
+  /\ match conv_class default_env w_negzero with Ok i' => preserved w_negzero i' | Err _ => true end = false.
+Proof. vm_compute. repeat split; reflexivity. Qed.
+
+(* a summary wrapped in quote marks loses them through emit.argparse_function / parse.argparse_ast *)
+Definition w_quoted_summary : ir := w1p (L "'quoted'") (cg (L "first.") (L "int") (VInt 1)).
+
+Lemma region_hole_quoted_summary :
+  chain_safe closed_kinds w_quoted_summary = true /\ complete w_quoted_summary = true
+  /\ c05_class_of [KArgparse] w_quoted_summary = None
+  /\ guard_C04_ast w_quoted_summary = false
+  /\ match conv_argparse default_env w_quoted_summary with Ok i' => preserved w_quoted_summary i' | Err _ => true end = false.
+Proof. vm_compute. repeat split; reflexivity. Qed.
+
+(* a float default in exponent notation: inside chain_safe, outside the guards of the C01 theorems (the numpydoc / google
+   model declines the text, the ReST model round-trips it): these conjuncts bound what is PROVED, not what holds *)
+Definition w_exp_float : ir := w1p (L "Sum.") (cg (L "first.") (L "float") (VFloat (L "1e+20"))).
+
+Lemma guard_conjuncts_docstring :
+  chain_safe closed_kinds w_exp_float = true /\ complete w_exp_float = true
+  /\ guard_C01_rest false w_exp_float = false
+  /\ C01SpecNG.guard_C01_ng DocParseNG.SGoogle w_exp_float = false
+  /\ C01SpecNG.guard_C01_ng DocParseNG.SNumpydoc w_exp_float = false
+  /\ conv_google w_exp_float = Err Unmodelled
+  /\ match conv_rest w_exp_float with Ok i' => preserved w_exp_float i' | Err _ => false end = true.
+Proof. vm_compute. repeat split; reflexivity. Qed.
+
+(* the conjunct complete: without an explicit default the class kind invents one (already outside chain_safe) *)
+Definition w_no_default : ir := w1p (L "Sum.") (mkG (Has (L "first.")) (Has (L "int")) None).
+
+Lemma complete_needed :
+  complete w_no_default = false /\ chain_safe closed_kinds w_no_default = false
+  /\ guard_C02_ast w_no_default = true
+  /\ match conv_class default_env w_no_default with Ok i' => preserved w_no_default i' | Err _ => true end = false.
+Proof. vm_compute. repeat split; reflexivity. Qed.
